@@ -202,9 +202,22 @@ def gen_any_ops(rng, tier, acc=False, basins=False):
         elif r < 0.85:
             ops = ["multi:" + hx(rng.choice([0.0, 1.0, 1.1, 2.0]))]
         else:
-            ops = ["single", "snap:a:g", "pflood", "multi:" + hx(1.0)]
+            ops = rng.choice([["single", "snap:a:g", "pflood", "multi:" + hx(1.0)], ["single", "snap:a:g", "multi:" + hx(1.1)],
+                              ["single", "snap:a:g", "mst:k:carve"]])
         single_final = not any(o.startswith("multi") for o in ops)
-        out.append(("a%d" % k, _flow_scn(rng, g, ops, n_updates=rng.randint(1, 3), acc=acc, basins=basins and single_final)))
+        lines = _flow_scn(rng, g, ops, n_updates=rng.randint(1, 3), acc=acc, basins=basins and single_final)
+        if any(o.startswith("snap:a") for o in ops):
+            # the snapshot graph is a flow graph too: accumulate / basins on it after every update
+            lines2 = []
+            for l in lines:
+                lines2.append(l)
+                if l.startswith("update"):
+                    if acc:
+                        lines2.append("snapcall a acc s " + hx(1.0))
+                    if basins:
+                        lines2.append("snapcall a basins")
+            lines = lines2
+        out.append(("a%d" % k, lines))
     return out
 
 
@@ -277,13 +290,13 @@ register("C19", lean_modules=['FsModel.Basins'], theorems=['Fs.Basins.run_block'
 def grid_queries(rng, g, full=True):
     n = g.n
     qs = []
-    kinds = ["c", "i", "ib", "d", "s"]
+    kinds = ["c", "i", "ib", "d", "s", "so"]
     for i in range(n):
         for k in kinds:
             if full or rng.random() < 0.5:
                 qs.append("q %s %d" % (k, i))
         if g.kind == "raster":
-            for k in ("rc", "rs", "code"):
+            for k in ("rc", "rs", "rso", "code"):
                 if full or rng.random() < 0.5:
                     qs.append("qr %s %d" % (k, i))
     rng.shuffle(qs)
@@ -638,3 +651,87 @@ register("C20", gen=gen_c20, runner=c20_runner, oracles=[oracle.c20], nontrivial
 _lvl("C20", "proof",
      "Theorems for operator lists of ANY length and ANY flag table about the function the model executes: accepts_iff (constructible iff every required input direction matches the direction produced before it, every graph snapshot follows a router, and some operator updates the graph and defines a direction), effects (reported direction = last defining operator; single-column iff every defining operator is single; caller's array returned iff no operator edits elevation). Flag table regenerated from the source each run. Correspondence is exhaustive over all 2800 sequences of length <= 4.",
      "Lean 4 induction over operator lists + translator-regenerated flag table + exhaustive correspondence over all sequences <= 4")
+
+
+# ----------------------------------------------------------------------------- C16
+
+def snap_calls(rng, g, name, single):
+    out = []
+    if rng.random() < 0.7:
+        if rng.random() < 0.5:
+            out.append("snapcall %s acc a %s" % (name, gen.hexes([rng.choice([1.0, 0.0, rng.random() * 3]) for _ in range(g.n)])))
+        else:
+            out.append("snapcall %s acc s %s" % (name, hx(rng.choice([1.0, 2.5]))))
+    if single and rng.random() < 0.7:
+        out.append("snapcall %s basins" % name)
+    return out
+
+
+def gen_snapshots(rng, tier):
+    out = []
+    for k in range(counts(tier, 260, 2500)):
+        g = gen.any_grid(rng, small=(tier == "quick"))
+        # operator sequence with snapshots at random positions
+        base_seq = rng.choice([
+            ["single"], ["single", "mst"], ["pflood", "single"], ["multi"], ["pflood", "multi"], ["single", "multi"],
+            ["single", "mst", "multi"], ["multi", "single"], ["single:2"], ["pflood", "single", "mst"]])
+        ops, snaps = [], []
+        dirn = None
+        for o in base_seq:
+            if rng.random() < 0.25:
+                nm = "e%d" % len(ops)
+                ops.append("snap:%s:e" % nm)
+            if o == "mst":
+                o = "mst:%s:%s" % (rng.choice("kb"), rng.choice(["basic", "carve"]))
+            elif o == "multi":
+                o = "multi:" + hx(rng.choice([0.0, 1.0, 1.1, 2.0]))
+            ops.append(o)
+            dirn = "single" if (o.startswith("single") or o.startswith("mst")) else ("multi" if o.startswith("multi") else dirn)
+            if dirn and rng.random() < 0.7:
+                nm = "g%d" % len(ops)
+                fl = rng.choice(["g", "g", "ge"])
+                ops.append("snap:%s:%s" % (nm, fl))
+                snaps.append((nm, dirn == "single"))
+        if not snaps:
+            nm = "g%d" % len(ops)
+            ops.append("snap:%s:g" % nm)
+            snaps.append((nm, dirn == "single"))
+        lines = [g.line(), "graph " + " ".join(ops)]
+        for u in range(rng.randint(1, 3)):
+            if rng.random() < 0.4:
+                lines.append("set_mask " + " ".join(map(str, gen.mask_bits(rng, g))))
+            if rng.random() < 0.3:
+                lines.append("set_base " + " ".join(map(str, rng.sample(range(g.n), rng.randint(1, min(3, g.n))))))
+            lines.append("update " + gen.hexes(gen.elevation(rng, g)))
+            for nm, single in snaps:
+                lines += snap_calls(rng, g, nm, single)
+            if rng.random() < 0.5:
+                nm = rng.choice(snaps)[0]
+                what = rng.choice(["set_mask", "set_base", "update"])
+                if what == "set_mask":
+                    lines.append("snapcall %s set_mask %s" % (nm, " ".join(map(str, gen.mask_bits(rng, g)))))
+                elif what == "set_base":
+                    lines.append("snapcall %s set_base %d" % (nm, rng.randrange(g.n)))
+                else:
+                    lines.append("snapcall %s update %s" % (nm, gen.hexes(gen.elevation(rng, g))))
+                # reading the snapshot again after the refused call
+                lines += snap_calls(rng, g, nm, dict(snaps)[nm])
+        out.append(("n%d" % k, lines))
+    return out
+
+
+def has_snapshot_tables(si):
+    return any(c.cmd == "update" and any(k.startswith("snap:") for k in c.O) for c in si.calls)
+
+
+register("C16", gen=gen_snapshots, oracles=[oracle.c16], nontrivial=has_snapshot_tables, tags=tags_flow,
+         sections={"update", "elev", "acc", "acc_overloads_agree", "basins", "outlets", "pits", "set_mask", "set_base", "snap_update", "snapmeta", "gkeys", "ekeys"} | GRAPH_SECTIONS | {"esnap"},
+         lean_modules=["FsProofs.Properties.C16"],
+         theorems=["Fs.Driver.snapshot_eq_prefix", "Fs.Driver.snapshot_eq_prefix_multi", "Fs.Driver.snapCopy_single", "Fs.Driver.snapCopy_multi",
+                   "Fs.Driver.cover_single", "Fs.Driver.cover_multi", "Fs.Driver.snapMask_faithful", "Fs.Driver.snapBase_faithful",
+                   "Fs.Driver.snapshot_transparent", "Fs.Driver.snapshot_mutators_refused", "Fs.Driver.mstHook_frame"],
+         rule="operator sequences (10 base families x resolver variants) with graph/elevation snapshots at random positions, 1-3 updates with changing mask/base levels/elevation, accumulate and basins on every snapshot after every update, mutators on snapshot graphs; oracle = separately constructed prefix graph in the real code; non-trivial = snapshot tables were produced",
+         trusted_base=FLOW_TB + ["member list copied by flow_snapshot::_save and the read-only guards are regenerated from the source by translate.py"])
+_lvl("C16", "proof",
+     "Theorems about the update function the model executes, for operator lists of any length: snapshot_eq_prefix (after pre ++ [snapshot nm] ++ post the snapshot holds exactly the _save copy of the graph a run of only pre ends with, plus mask/base levels in force; later operators do not leak), snapCopy_single/multi (with the member list regenerated from flow_snapshot.hpp the copy loses nothing: decide over the generated list + one-receiver-per-node for single direction), snapshot_transparent, snapshot_mutators_refused (guards regenerated). Accumulate/basins on a snapshot are the same model functions applied to that state.",
+     "Lean 4 fold lemmas over the operator list + decide over the translator-regenerated copied-member list + correspondence + prefix-graph oracle")
